@@ -87,7 +87,9 @@ def case(draw, tier):
     # identical inputs and scalars - different resolved types must stay different nodes
     rtypes = draw(st.lists(st.sampled_from(["TS[int]", "TS[bool]", "TS[str]", "TSS[int]", "TSD[int,TS[int]]"]), min_size=2, max_size=4)) \
         if draw(st.integers(0, 3)) == 0 else None
-    return {"prog": prog, "perms": perms, "dup": dup, "twins": twins, "rtypes": rtypes}
+    # output-less higher-order / nested nodes are sinks too: the same statement written twice stays two nodes
+    hsink = draw(st.sampled_from([None, None, None, "map_", "nested", "switch_"]))
+    return {"prog": prog, "perms": perms, "dup": dup, "twins": twins, "rtypes": rtypes, "hsink": hsink}
 
 
 def strategy(tier):
@@ -280,6 +282,57 @@ def check(case, ctx) -> Result:
                 res.violations.append(Viol("resolved_type_twins_merged", f"nothing[O] wired for O = {[rt[i] for i in order]}: the compiled graph has {n_nothing} such node(s) for {len(set(rt))} distinct resolved types", {"order": order != sorted(order)}))
                 break
         res.labels.append("resolved_type_twins")
+    # ---- (5) output-less map_ / switch_ / nested statements written twice with the same function value and inputs
+    hs = case.get("hsink")
+    if hs and not res.violations:
+        FS = {"params": ["TS[int]"], "names": ["x"], "stmts": [{"id": "k", "op": "node", "ins": [{"arg": 0}], "log_inputs": False}]}
+        FK = {"params": ["TS[int]", "TS[int]"], "names": ["key", "x"], "stmts": [{"id": "k", "op": "node", "ins": [{"arg": 1}], "log_inputs": False}]}
+        T0 = prog["start"]
+        base = [{"id": "HX", "op": "src", "schema": "TS[int]", "script": [[T0, [{"k": "set", "v": 1}]], [T0 + 1, [{"k": "set", "v": 2}]]]},
+                {"id": "HD", "op": "src", "schema": "TSD[int,TS[int]]", "script": [[T0, [{"k": "D", "ops": [["set", 1, 5], ["set", 2, 6]]}]], [T0 + 1, [{"k": "D", "ops": [["set", 1, 7]]}]]]},
+                {"id": "HK", "op": "src", "schema": "TS[int]", "script": [[T0, [{"k": "set", "v": 0}]]]}]
+        def stmt(i):
+            if hs == "map_":
+                return {"id": f"HS{i}", "op": "op", "name": "map_", "args": [{"fn": "FS"}, {"ts": "HD"}], "has_out": False}
+            if hs == "switch_":
+                return {"id": f"HS{i}", "op": "op", "name": "switch_", "args": [{"ts": "HK"}, {"cases": [[0, "FS"]], "key_t": "int"}, {"ts": "HX"}], "has_out": False}
+            return {"id": f"HS{i}", "op": "nested", "sub": "FS", "ins": ["HX"]}
+        counts = []
+        for n_copies in (1, 2):
+            r = _run(ctx, {"start": T0, "end": T0 + 3, "stmts": base + [stmt(i) for i in range(n_copies)], "subs": {"FS": FS, "FK": FK}}, res, f"{hs} sink statement x{n_copies}")
+            if r is None:
+                return res
+            counts.append((len(r["graph"]["nodes"]), sum(1 for e in r["trace"] if e[0] == "ev" and e[3] == "FS.k")))
+        (n1, e1), (n2, e2) = counts
+        if n2 != n1 + 1 or e2 != 2 * e1 or e1 == 0:
+            res.violations.append(Viol("sink_merged", f"an output-less {hs} statement written twice: {n2} nodes / {e2} child evaluations, once: {n1} nodes / {e1} evaluations (expected one more node and twice the evaluations)", {"higher_order_sink": hs}))
+        res.labels.append("higher_order_sink_twins")
+    # ---- (6) switch_ calls that differ only in which source goes to which keyword
+    if case.get("hsink") and not res.violations:
+        BK = {"params": ["TS[int]", "TS[int]"], "names": ["a", "b"], "out": "TS[int]", "ret": "f",
+              "stmts": [{"id": "f", "op": "node", "ins": [{"arg": 0}, {"arg": 1}], "out": "TS[int]", "fn": "sum", "coef": [1000, 1], "log_inputs": False}]}
+        T0 = prog["start"]
+        def sw(i, an, bn):
+            return {"id": f"KW{i}", "op": "op", "name": "switch_", "args": [{"ts": "KK"}, {"cases": [[0, "BK"]], "key_t": "int"}, {"ts": "KX", "name": an}, {"ts": "KY", "name": bn}], "has_out": True}
+        streams = {}
+        for order in ((1, 2), (2, 1)):
+            two = {1: sw(1, "a", "b"), 2: sw(2, "b", "a")}
+            stmts_ = [{"id": "KK", "op": "src", "schema": "TS[int]", "script": [[T0, [{"k": "set", "v": 0}]]]},
+                      {"id": "KX", "op": "src", "schema": "TS[int]", "script": [[T0, [{"k": "set", "v": 1}]], [T0 + 1, [{"k": "set", "v": 2}]]]},
+                      {"id": "KY", "op": "src", "schema": "TS[int]", "script": [[T0, [{"k": "set", "v": 5}]], [T0 + 2, [{"k": "set", "v": 6}]]]},
+                      two[order[0]], two[order[1]], {"id": "KR1", "op": "node", "ins": ["KW1"]}, {"id": "KR2", "op": "node", "ins": ["KW2"]}]
+            r = _run(ctx, {"start": T0, "end": T0 + 4, "stmts": stmts_, "subs": {"BK": BK}}, res, f"keyword twins order {order}")
+            if r is None:
+                return res
+            tr_ = Trace(r["trace"])
+            streams[order] = ([(t, v) for t, v, _ in tr_.stream("KR1")], [(t, v) for t, v, _ in tr_.stream("KR2")])
+        exp1 = [(T0, 1005), (T0 + 1, 2005), (T0 + 2, 2006)]
+        exp2 = [(T0, 5001), (T0 + 1, 5002), (T0 + 2, 6002)]
+        for order, (g1, g2) in streams.items():
+            if g1 != exp1 or g2 != exp2:
+                res.violations.append(Viol("keyword_twins_merged", f"switch_(k, cases, a=x, b=y) and switch_(k, cases, b=x, a=y) wired in order {order}: streams {g1[:3]} / {g2[:3]}, expected {exp1} / {exp2}", {}))
+                break
+        res.labels.append("keyword_twins")
     res.nontrivial = moved >= 2 and near_ok
     res.summary = {"orders": orders[:2], "dup": dup, "nodes": base[1] if base else None}
     return res
